@@ -9,12 +9,15 @@ import shlex
 import subprocess
 import sys
 
-REPO = "/repo"
+# VF_REPO / VF_BUILD let a scratch copy of the repository (a seeded change under test) be built and checked without
+# touching /repo or /verif/build:  VF_REPO=/tmp/x/repo VF_BUILD=/tmp/x/verif/build ./check C15
+# (same relative layout as /repo + /verif/build, so that the shared ccache hits).
+REPO = os.environ.get("VF_REPO", "/repo")
 VERIF = "/verif"
-BUILD = os.path.join(VERIF, "build")
+BUILD = os.environ.get("VF_BUILD", os.path.join(VERIF, "build"))
 SG = os.path.join(BUILD, "sg")
 DRV = os.path.join(BUILD, "drv")
-CCACHE = os.path.join(BUILD, "ccache")
+CCACHE = os.path.join(VERIF, "build", "ccache")
 GUARD = "SIMGRID_VERIF"
 SG_TARGETS = ["simgrid", "simgrid-mc", "sthread", "smpimain", "smpireplaymain"]
 
@@ -26,6 +29,9 @@ class BuildFailed(Exception):
 def _env():
     e = dict(os.environ)
     e["CCACHE_DIR"] = CCACHE
+    e["CCACHE_BASEDIR"] = os.path.commonpath([REPO, BUILD])
+    e["CCACHE_NOHASHDIR"] = "1"
+    e["CCACHE_MAXSIZE"] = "8G"
     return e
 
 
